@@ -30,8 +30,7 @@ def main():
     for kind in (list(reversed(spaces.KINDS)) if salt == 4 else spaces.KINDS):
         h = hashlib.sha256()
         s = e2.Search(kind, "default", "seed")
-        m, L = s.build(())
-        init = s.state(m, L)[0]
+        init = e2.snap_model(s.fresh()[0])
         seen = {}
         frontier = [()]
         for level in range(depth):
